@@ -32,7 +32,7 @@ macro_rules! stats_struct {
 }
 stats_struct!(
     bodies, applies, deliveries, postponed, max_postponed_one_target, nested_replay, skipped_dead, skipped_dead_postponed, optional_taken, optional_skipped, polled_events, polled_in_tree, polled_reactions, payloads, payload_zero_listeners, payload_abort_release, doomed_insts, once_fired, once_retrigger_after_fire, revokes_applied, revoke_mid_dispatch, kills, kill_self, err_returns, excl_bodies, registrations, reg_dead_entity, slot_respawn, max_depth, roots, multi_kind_same_tree, sibling_reorder, frames, guaranteed_gc, guaranteed_poll, a1_ambiguous, ewr_bodies, ewr_nodata_ok, inserts_dead_at_apply, setifneq_equal, setifneq_diff, removal_reinsert_removal, sig_zero, entity_recursive_despawn, fifo_pairs_checked, sys_calls, reactors_per_key_ge7,
-    probes, ev_total, replayed, sys_recursive
+    probes, ev_total, replayed, sys_recursive, acc_ops, single_acc
 );
 
 #[derive(Clone, Debug)]
@@ -1805,6 +1805,89 @@ impl<'a> Checker<'a>
                 let e = slot(self, *s);
                 if self.sys.spawned[k].is_none() && self.ents[e].alive && !self.sys.on_ent.iter().any(|x| *x == Some(e)) { self.sys.spawned[k] = Some((*key % crate::sysfam::NKEYS, true)); self.sys.on_ent[k] = Some(e); }
             }
+            WOp::Acc(kind, s, c, v) => self.acc(*kind, slot(self, *s), *c, *v, u)?,
+            WOp::ResAcc(kind, r, v) =>
+            {
+                self.stats.acc_ops += 1;
+                // none of the world-level / read-only resource accessors triggers (C14); the value is checked after the step
+                match kind
+                {
+                    ResAccKind::WorldNoreact | ResAccKind::WorldGetNoreact | ResAccKind::WorldInsert | ResAccKind::CmdInsert => { self.res[r.idx()] = *v; }
+                    ResAccKind::WorldRead | ResAccKind::ParamRead | ResAccKind::GetOrInsertWith => { let cur = self.res[r.idx()]; self.set_ret(u, Some(cur), "resource read")?; }
+                    ResAccKind::Init => {}
+                }
+            }
+            WOp::Move(from, to, c) =>
+            {
+                let (f, t) = (slot(self, *from), slot(self, *to));
+                if f != t && self.ents[t].alive && self.ents[f].alive
+                {
+                    if let Some(v) = self.ents[f].comp[c.idx()]
+                    {
+                        self.stats.acc_ops += 1;
+                        self.do_remove(f, *c)?;
+                        self.do_insert(t, *c, v, true)?;
+                    }
+                }
+            }
+        }
+        Ok(())
+    }
+
+    /// Component accessors called from one-shot systems (C14): the value effect happens inside the accessor, the trigger
+    /// (if any) is a command of the one-shot system and is applied before the call returns.
+    fn acc(&mut self, kind: AccKind, e: EntId, c: C, v: u8, u: u32) -> Res<()>
+    {
+        self.stats.acc_ops += 1;
+        let single = matches!(kind, AccKind::SingleMut | AccKind::SingleNoreact | AccKind::SingleSetIfNeq | AccKind::SingleRead | AccKind::RoSingle);
+        let mut e = e;
+        if single
+        {
+            let holders: Vec<EntId> = (0..self.ents.len()).filter(|i| self.ents[*i].alive && self.ents[*i].comp[c.idx()].is_some()).collect();
+            match self.peek()?
+            {
+                Some(Ev::Kept { uid, n }) if *uid == u =>
+                {
+                    if *n as usize != holders.len() { let n = *n; fail!(self, "C14", "component-value", &[], "{n} entities carry component {c:?}, expected {}", holders.len()); }
+                    self.advance()?;
+                }
+                _ => return self.unexpected("single-accessor guard"),
+            }
+            if holders.len() != 1 { return Ok(()); }
+            self.stats.single_acc += 1;
+            e = holders[0];
+        }
+        let cur = if self.ents[e].alive { self.ents[e].comp[c.idx()] } else { None };
+        if single
+        {
+            let want_old = match kind { AccKind::SingleSetIfNeq => cur.filter(|o| *o != v), _ => cur };
+            match self.peek()?.cloned()
+            {
+                Some(Ev::Single { uid, e: bits, old }) if uid == u =>
+                {
+                    if bits != self.real(e) { fail!(self, "C14", "accessor-return", &[], "{kind:?} reported entity {bits:#x}, the only holder of {c:?} is {:#x}", self.real(e)); }
+                    if old != want_old { fail!(self, "C14", "accessor-return", &[], "{kind:?} saw / returned {old:?}, expected {want_old:?}"); }
+                    self.advance()?;
+                }
+                _ => return self.unexpected("single-accessor observation"),
+            }
+        }
+        match kind
+        {
+            AccKind::QGetMut | AccKind::SingleMut =>
+            {
+                if cur.is_some() { self.ents[e].comp[c.idx()] = Some(v); self.do_mutation_trigger(e, c)?; }
+            }
+            AccKind::QSetIfNeq | AccKind::SingleSetIfNeq =>
+            {
+                let changes = matches!(cur, Some(o) if o != v);
+                if changes { self.stats.setifneq_diff += 1; } else { self.stats.setifneq_equal += 1; }
+                if kind == AccKind::QSetIfNeq { self.set_ret(u, cur.filter(|o| *o != v), "React::set_if_neq")?; }
+                if changes { self.ents[e].comp[c.idx()] = Some(v); self.do_mutation_trigger(e, c)?; }
+            }
+            AccKind::QNoreact | AccKind::SingleNoreact => { if cur.is_some() { self.ents[e].comp[c.idx()] = Some(v); } }
+            AccKind::QRead | AccKind::RoRead => { self.set_ret(u, cur, "read")?; }
+            AccKind::SingleRead | AccKind::RoSingle => {}
         }
         Ok(())
     }
